@@ -45,7 +45,11 @@ TOPOLOGIES = [
     ('stacks: slide+hinge root, 3-hinge child (non-orthogonal axes, offset anchors)',
      [dict(parent=-1, joints=('s', 'h')), dict(parent=0, joints=('h', 'h', 'h'))], False),
 ]
+TOPOLOGIES.append(('mixed stacks: hinge+slide root, slide+hinge+slide child',
+                   [dict(parent=-1, joints=('h', 's')), dict(parent=0, joints=('s', 'h', 's'))], False))
 THOROUGH = [
+    ('mixed stacks: hinge+slide+hinge under a free root, hinge+hinge+slide child',
+     [dict(parent=-1, joints=F), dict(parent=0, joints=('h', 's', 'h')), dict(parent=1, joints=('h', 'h', 's'))], False),
     ('interleaved types and depths', [dict(parent=-1, joints=F), dict(parent=-1, joints=H), dict(parent=0, joints=S),
                                       dict(parent=1, joints=H), dict(parent=2, joints=H)], True),
     ('stacks: slide+slide+hinge, hinge+hinge', [dict(parent=-1, joints=('s', 's', 'h')), dict(parent=0, joints=('h', 'h'))], False),
@@ -116,7 +120,7 @@ def _forests(nmax):
       yield ps
 
 
-def scan_spec(U, rep, tier):
+def scan_spec(U, rep, tier, rule='R1.2'):
   from braxlint.avn import Struct, symarr, uf
   from braxlint import symsys
   f = U.func('brax.scan.tree')
@@ -204,10 +208,10 @@ def scan_spec(U, rep, tier):
         break
     if tbad:
       break
-  rep.check(tbad is None, 'R1.2', 'scan._take(x, idxs) gathers x[idxs] for every index list (length <= 4 over 4 entries)',
+  rep.check(tbad is None, rule, 'scan._take(x, idxs) gathers x[idxs] for every index list (length <= 4 over 4 entries)',
             lambda: 'scan._take returns the wrong elements for idxs=%r (contiguity shortcut taken for a non-contiguous list)' % (tbad,),
             where=ft.where(), construct='%d index lists, exhaustive' % ntake)
-  rep.check(bad is None, 'R1.2', 'scan.tree / scan.link_types regroup and restore order for every forest of <= %d links' % nmax,
+  rep.check(bad is None, rule, 'scan.tree / scan.link_types regroup and restore order for every forest of <= %d links' % nmax,
             lambda: 'scan.%s does not implement its specification on the forest with link_parents=%r: some link receives another '
             'link\'s parent carry / data' % (bad[0], bad[1]), where=f.where(),
             construct='%d parent arrays x (tree, tree reverse, link_types) with uninterpreted per-level functions' % count)
